@@ -7,6 +7,8 @@ QUICK = dict(W0=19752, WLen=5, SOff=1, SLen=3, Masks=["{5, 6}", "{4, 5}", "{6}"]
 # year end: 2024-12-29 = 20086
 THORO = dict(W0=19752, WLen=7, SOff=2, SLen=4, Masks=["{5, 6}", "{4, 5}", "{}", "{6}", "{0, 1, 2, 3, 5, 6}"], Margin=30, NMax=4)
 THORO2 = dict(W0=20085, WLen=6, SOff=1, SLen=3, Masks=["{5, 6}", "{6}"], Margin=24, NMax=3)
+# quick: a small family straddling the YEAR end as well (month numbers wrap 12 -> 1 there), replayed only
+QUICK_YE = dict(W0=20085, WLen=5, SOff=1, SLen=2, Masks=["{5, 6}", "{6}"], Margin=24, NMax=2)
 
 
 def cfg_text(p, masks, init="Init", nxt="Next", invs=True):
@@ -185,7 +187,7 @@ def run(pid, tier):
         mc = model_check_calendar(d, plist, tag)
         for v in mc["violations"]:
             V.add("model/" + v["name"], "MC_Calendar invariant %s violated: %s" % (v["name"], v["state"]), {"engine": "model", "state": v["state"]})
-        gen_plist = [QUICK] if quick else [dict(THORO, Masks=["{5, 6}", "{4, 5}", "{6}"]), THORO2]
+        gen_plist = [QUICK, QUICK_YE] if quick else [dict(THORO, Masks=["{5, 6}", "{4, 5}", "{6}"]), THORO2]
         cases = generate_cases(d, gen_plist, tag)
         traces = []
         for i, c in enumerate(cases):
@@ -195,10 +197,13 @@ def run(pid, tier):
         rnd = os.path.join(d, "rnd.ndjson")
         if vlib.record(V, ["cal", "record", "--seed", seed, "--n", 600 if quick else 6000, "--out", rnd]):
             traces.append(rnd)
+        rt = vlib.repo_test_traces()          # the repository's own tests, run with the trace hooks on
+        if vlib.count_lines(rt["cal"]):
+            traces.append(rt["cal"])
         st = validate(pid, traces, tag, V, shards=12)
         n, nd, samples = count_owned(traces, pid)
         bind = binding_demo(pid, traces[0], d, tag) if traces and not V.viol else {"skipped": "violations were found"}
-        cov = dict(states=mc["distinct"], transitions=mc["generated"], depth=mc["depth"], action_coverage=mc["coverage"],
+        cov = dict(repo_test_events=rt["events"], states=mc["distinct"], transitions=mc["generated"], depth=mc["depth"], action_coverage=mc["coverage"],
                    traces_validated_against_impl=st["events"], evaluations=n, distinct_nontrivial=nd,
                    rule="one trace = one real calendar object (Cal / UnionCal / NamedCal / CalType) with its query battery; a query is counted once per (calendar, arguments); generated family = every holiday subset x settlement subset x mask of MC_Calendar's Init, random family = seeded calendars 1972-2198 incl. built-in names",
                    out_of_window_skipped=st["oow"], exhaustive=False, binding_demo=bind, samples=samples,
@@ -225,6 +230,9 @@ def run(pid, tier):
         rnd = os.path.join(d, "rnd.ndjson")
         if vlib.record(V, ["cal", "record", "--seed", seed, "--n", 400 if quick else 4000, "--out", rnd]):
             traces.append(rnd)
+        rt = vlib.repo_test_traces()
+        if vlib.count_lines(rt["cal"]):
+            traces.append(rt["cal"])
         st = validate(pid, traces, tag, V, shards=12)
         n, nd, samples = count_owned(traces, pid)
         bind = binding_demo(pid, rnd, d, tag) if rnd in traces and not V.viol else {"skipped": "violations were found"}
